@@ -25,7 +25,8 @@ real_t _pearson_corr(const arr_real& x, const arr_real& y) noexcept {
     sqsum_x *= n;
     sqsum_y *= n;
     const real_t den = sum_xy - (sum_x * sum_y);
-    const real_t num = std::sqrt((sqsum_x - sum_x * sum_x) * (sqsum_y - sum_y * sum_y));
+    //the product of the two variances leaves the double range for data around 1e-80 or 1e+80
+    const real_t num = std::sqrt(sqsum_x - sum_x * sum_x) * std::sqrt(sqsum_y - sum_y * sum_y);
     const real_t corr = den / num;
     return corr;
 }
